@@ -97,6 +97,7 @@ CANARIES = {
         ("keyword-step-bare", "stix2/patterns.py", "text", ["if not _BARE_PATH_STEP_RE.match(x) or x in _PATTERN_KEYWORDS:", "if not _BARE_PATH_STEP_RE.match(x):"], "C10.step-quoting"),
         ("quoted-step-unescaped", "stix2/patterns.py", "text", ["return \"'\" + escape_quotes_and_backslashes(x) + \"'\"", "return \"'\" + x + \"'\""], "C10.step-quoting"),
         ("empty-hex-refused", "stix2/patterns.py", "text", ["^h'(([a-fA-F0-9]{2})*)'$", "^h'(([a-fA-F0-9]{2})+)'$"], "C10.hex-literal-form"),
+        ("operand-root-types-aliased", "stix2/patterns.py", "text", ["self.root_types = set(arg.root_types)", "self.root_types = arg.root_types"], "C10.definite-init"),
     ],
     "C11": [
         ("overwrite-refusal-removed", "stix2/datastore/filesystem.py", "drop-raise-guard", ["_check_path_and_write", "os.path.isfile"], "C11.check-before-write"),
